@@ -13,6 +13,7 @@ import (
 	"testing/iotest"
 
 	"github.com/datastax/go-cassandra-native-protocol/frame"
+	"github.com/datastax/go-cassandra-native-protocol/message"
 	"github.com/datastax/go-cassandra-native-protocol/primitive"
 	"pgregory.net/rapid"
 
@@ -88,6 +89,24 @@ func c05Paths(rt *rapid.T) {
 	}
 	if d := diffFrames(F, conv); d != "" {
 		rt.Fatalf("DecodeRawFrame+ConvertFromRawFrame differs from DecodeFrame: %s\n%s", d, desc())
+	}
+	// a proxy inspects a raw frame (converts it) and then forwards the raw frame: what it forwards must still be the frame,
+	// and a second conversion must give it again
+	if !(fc.Frame.Header.Flags.Contains(primitive.HeaderFlagCompressed) && knownLz4("C05", spy)) {
+		var fwd bytes.Buffer
+		if err := codec.EncodeRawFrame(raw, &fwd); err != nil {
+			rt.Fatalf("EncodeRawFrame of a raw frame that was converted before: %v\n%s", err, desc())
+		}
+		if !bytes.Equal(fwd.Bytes(), enc) {
+			rt.Fatalf("a raw frame forwarded (EncodeRawFrame) after it was inspected (ConvertFromRawFrame) differs from the bytes it was decoded from: header %x vs %x, body %d vs %d bytes\n%s", fwd.Bytes()[:min(h, fwd.Len())], enc[:h], fwd.Len()-h, len(enc)-h, desc())
+		}
+		conv2, err := codec.ConvertFromRawFrame(raw)
+		if err != nil {
+			rt.Fatalf("second ConvertFromRawFrame of the same raw frame: %v\n%s", err, desc())
+		}
+		if d := diffFrames(F, conv2); d != "" {
+			rt.Fatalf("second ConvertFromRawFrame of the same raw frame differs from DecodeFrame: %s\n%s", d, desc())
+		}
 	}
 
 	// 2. header + body
@@ -179,6 +198,19 @@ func c05Paths(rt *rapid.T) {
 		rt.Fatalf("ConvertToRawFrame: %v", err)
 	}
 	known5 := fc.Frame.Header.Flags.Contains(primitive.HeaderFlagCompressed) && knownLz4("C05", spy)
+	// a proxy converts a batch of frames before it flushes any: the raw frame must not depend on what the codec does next
+	for k := 0; k < 2; k++ {
+		other := frame.NewFrame(v, int16(k+2), &message.Query{Query: strings.Repeat("another body ", 3+40*k), Options: &message.QueryOptions{}})
+		if comp != compNone && k == 1 {
+			other.SetCompress(true)
+		}
+		if _, err := codec.ConvertToRawFrame(other); err != nil {
+			rt.Fatalf("harness defect: ConvertToRawFrame of a plain QUERY: %v", err)
+		}
+		if _, err := encodeFrame(codec, other); err != nil {
+			rt.Fatalf("harness defect: EncodeFrame of a plain QUERY: %v", err)
+		}
+	}
 	var b5 bytes.Buffer
 	if err := codec.EncodeRawFrame(raw5, &b5); err != nil {
 		rt.Fatalf("EncodeRawFrame: %v", err)
